@@ -465,7 +465,7 @@ def _execute(ctx, h, scratch):
 
         rr = prng.sub("c03foreign", h["foreign"])
         try:
-            v = container.foreign_variant(src, compflags=rr.choice([None, rr.randrange(1 << 16)]), emptyinstr=rr.choice([None, rr.randrange(1 << 16), rr.randrange(1 << 16)]))
+            v = container.foreign_variant(src, compflags=rr.choice([None, rr.randrange(1 << 16)]), emptyinstr=rr.choice([None, rr.randrange(1 << 16), rr.randrange(1 << 16)]), unitscale=rr.choice([None, rr.randrange(1 << 16)]))
             tabs = dict(container.tables_of(v if v is not None else src))
             if "glyf" in tabs and "maxp" in tabs and len(tabs["maxp"]) >= 6:
                 ng_ = struct.unpack_from(">H", tabs["maxp"], 4)[0]
@@ -474,6 +474,12 @@ def _execute(ctx, h, scratch):
                         tabs[t] = mk()
                         v = True
                         probes["foreign." + t] = 1
+                if "post" in tabs and rr.random() < 0.5:
+                    pt = foreign.post2(tabs["post"], ng_, rr, dup_pool=rr.random() < 0.7)
+                    if pt is not None:
+                        tabs["post"] = pt
+                        v = True
+                        probes["foreign.post"] = 1
             if v is not None:
                 src = container.rebuild_sfnt(src[:4], tabs)
                 probes["foreign"] = 1
